@@ -360,6 +360,20 @@ def icg_cases(ctx):
             sc = rng.choice([2.0 ** -20, 2.0 ** -40, 2.0 ** 20, 2.0 ** 40])        # power-of-two scaling keeps exact superadditivity
             add(n, [x * sc for x in games.sa_closure_game(rng, n, "float")], "closure-float-scaled", "float")
             add(n, additive_game(rng, n, "float"), "additive-float", "float")
+            if n >= 3:
+                # additive float game whose singletons nearly cancel: |v(N)| is far below max|v|, so that a guard scaled by the grand
+                # coalition's value instead of the table's magnitude would divide the table by its rounding residue
+                ws = [rng.random() * rng.choice([0.1, 1.0, 7.0]) for _ in range(n - 1)]
+                ws.append(-(sum(ws)) + rng.choice([0.0, 1e-3, -1e-3, 1e-6]) * rng.random())
+                rng.shuffle(ws)
+                cvf = []
+                for s_ in range(2 ** n):
+                    x_ = 0.0
+                    for i_ in range(n):
+                        if (s_ >> i_) & 1:
+                            x_ = x_ + ws[i_]
+                    cvf.append(x_)
+                add(n, cvf, "additive-float-cancelling-singletons", "float")
             for _ in range(2):
                 v, src = nearly_additive(rng, n, "float")
                 add(n, v, src, "float")
